@@ -5,6 +5,7 @@ from ref import pools, schnorr
 ID = "C02"
 LEVEL = "exploration"
 CONFIGS = {"quick": ["san", "mx_i64"], "thorough": ["san", "san_nv", "mx_i64", "mx_i128s", "mx_noasm", "mx_clang", "mx_w2"]}
+EXTRA_BUILDS = ["sg13", "sg199"]
 RULE = ("sign32 / sign_custom / verify records: every message length 0..300 and sampled lengths to 10^5 (block boundaries), both key parities, "
         "aux absent / zero / random, custom nonce functions (failing, zero, fixed incl. values >= n); candidate signatures: honest, all 512 single-bit "
         "flips of some and sampled flips of the rest, r in {p, p+1, 2^256-1, off-curve}, s in {n, n+1, 2^256-1, s+n}, the R = infinity construction "
@@ -162,6 +163,8 @@ def wl_verify(ctx, config, scale=1.0):
             sig2 = schnorr.sign(b32(n - d0), msg, bytes(32)); vcase(ctx, config, pk32, msg, sig2, "negated_secret_same_xonly")
 
 def run(ctx):
+    from vlib import smallgroup
+    smallgroup.run(ctx, 'schnorr', {'schnorr_s_reenc': 'accepted'})
     for i, config in enumerate(ctx.configs):
         scale = 1.0 if i == 0 else 0.25
         wl_sign(ctx, config, scale)
